@@ -117,6 +117,7 @@ fn check1(backend: &str, f: &Fn1, x: f32, r: &mut Report, maxerr: Option<&String
 }
 
 fn finite(x: f32) -> bool { x.is_finite() }
+fn any(_: f32) -> bool { true }
 fn lt63(x: f32) -> bool { x.is_finite() && x.abs() < 9.2e18 }
 fn lt31(x: f32) -> bool { x.is_finite() && x.abs() < 2147483648.0 }
 fn nonneg_all(x: f32) -> bool { x.is_finite() && x >= 0.0 }
@@ -142,8 +143,8 @@ fn rexp(x: f32) -> f64 { (x as f64).exp() }
 fn fallback_fns() -> Vec<Fn1> {
     use float::fallback as fb;
     vec![
-        Fn1 { name: "floor", f: fb::floor, r: rfloor, dom: finite, b: Bound::Exact, dom_txt: "all finite" },
-        Fn1 { name: "abs", f: fb::abs, r: rabs, dom: finite, b: Bound::Exact, dom_txt: "all finite" },
+        Fn1 { name: "floor", f: fb::floor, r: rfloor, dom: any, b: Bound::Exact, dom_txt: "all bit patterns (infinities map to themselves, NaN to NaN)" },
+        Fn1 { name: "abs", f: fb::abs, r: rabs, dom: any, b: Bound::Exact, dom_txt: "all bit patterns (infinities map to themselves, NaN to NaN)" },
         // fast inverse square root + 1 Newton step: measured 1.76e-3 rel
         Fn1 { name: "recip_sqrt", f: fb::recip_sqrt, r: rrsqrt, dom: pos_finite, b: Bound::Rel(2.7e-3), dom_txt: "positive, subnormal included" },
     ]
@@ -153,8 +154,8 @@ fn fallback_fns() -> Vec<Fn1> {
 fn libm_fns() -> Vec<Fn1> {
     use float::libm as lm;
     vec![
-        Fn1 { name: "floor", f: lm::floor, r: rfloor, dom: finite, b: Bound::Exact, dom_txt: "all finite" },
-        Fn1 { name: "abs", f: lm::abs, r: rabs, dom: finite, b: Bound::Exact, dom_txt: "all finite" },
+        Fn1 { name: "floor", f: lm::floor, r: rfloor, dom: any, b: Bound::Exact, dom_txt: "all bit patterns (infinities map to themselves, NaN to NaN)" },
+        Fn1 { name: "abs", f: lm::abs, r: rabs, dom: any, b: Bound::Exact, dom_txt: "all bit patterns (infinities map to themselves, NaN to NaN)" },
         Fn1 { name: "sqrt", f: lm::sqrt, r: rsqrt, dom: nonneg_all, b: Bound::Ulps(1), dom_txt: "x >= 0, subnormal included" },
         Fn1 { name: "recip_sqrt", f: lm::recip_sqrt, r: rrsqrt, dom: pos_finite, b: Bound::Ulps(4), dom_txt: "positive, subnormal included" },
         Fn1 { name: "sin", f: lm::sin, r: rsin, dom: finite, b: Bound::Ulps(4), dom_txt: "all finite" },
@@ -170,8 +171,8 @@ fn libm_fns() -> Vec<Fn1> {
 fn mm_fns() -> Vec<Fn1> {
     use float::mm;
     vec![
-        Fn1 { name: "floor", f: mm::floor, r: rfloor, dom: finite, b: Bound::Exact, dom_txt: "all finite" },
-        Fn1 { name: "abs", f: mm::abs, r: rabs, dom: finite, b: Bound::Exact, dom_txt: "all finite" },
+        Fn1 { name: "floor", f: mm::floor, r: rfloor, dom: any, b: Bound::Exact, dom_txt: "all bit patterns (infinities map to themselves, NaN to NaN)" },
+        Fn1 { name: "abs", f: mm::abs, r: rabs, dom: any, b: Bound::Exact, dom_txt: "all bit patterns (infinities map to themselves, NaN to NaN)" },
         // bit-trick sqrt + 1 Newton step: measured below
         Fn1 { name: "sqrt", f: mm::sqrt, r: rsqrt, dom: nonneg_all, b: Bound::Rel(2.5e-3), dom_txt: "x >= 0, subnormal included" },
         Fn1 { name: "recip_sqrt", f: mm::recip_sqrt, r: rrsqrt, dom: pos_finite, b: Bound::Rel(2.7e-3), dom_txt: "positive, subnormal included" },
@@ -199,11 +200,11 @@ fn check_rem(backend: &str, f: fn(f32, f32) -> f32, x: f32, m: f32, r: &mut Repo
         Err(p) => r.violation(format!("{backend}-rem_euclid-panic|{x}|{m}"), format!("{backend}::rem_euclid({x},{m}) panicked: {p}"), case),
         Ok(g) => {
             let q = (x as f64 - g as f64) / m as f64;
-            let in_range = g >= 0.0 && g <= m;
+            let in_range = g >= 0.0 && g <= m.abs();
             let congruent = (q - q.round()).abs() <= 1e-4;
             if !in_range || !congruent {
                 let cls = if !in_range { "range" } else { "congruence" };
-                r.violation(format!("{backend}-rem_euclid|{cls}|x={x}|m={m}"), format!("{backend}::rem_euclid({x},{m}) = {g}; in [0,m]: {in_range}; (x-r)/m = {q}"), case);
+                r.violation(format!("{backend}-rem_euclid|{cls}|x={x}|m={m}"), format!("{backend}::rem_euclid({x},{m}) = {g}; in [0,|m|]: {in_range}; (x-r)/m = {q}"), case);
             } else if x < 0.0 { r.nontrivial(); }
         }
     }
@@ -251,7 +252,8 @@ fn check_powf(backend: &str, f: fn(f32, f32) -> f32, x: f32, y: f32, b: Bound, r
 
 fn two_arg(cfg: &Cfg, rep: &mut Report) {
     let lat = lattice2();
-    let ms = [0.5f32, 1.0, 2.2, 1.0 / 2.2, 3.0, 6.0, std::f32::consts::TAU, 360.0, 1e-3, 255.0];
+    // (negative moduli too: the least non-negative remainder is taken modulo |m|, as by the standard library)
+    let ms = [0.5f32, 1.0, 2.2, 1.0 / 2.2, 3.0, 6.0, std::f32::consts::TAU, 360.0, 1e-3, 255.0, -0.5, -2.2, -4.0, -360.0];
     let n = lat.len() as u64;
     let mut rems: Vec<(&str, fn(f32, f32) -> f32)> = vec![("fallback", float::fallback::rem_euclid)];
     #[cfg(feature = "cfg_mm")]
